@@ -12,7 +12,7 @@ use tree_sitter_generate::OptLevel;
 pub fn meta(tier: &str) -> CheckMeta {
     CheckMeta {
         id: "C16", level: "model_checking",
-        rule: "E-box: every zoo grammar and every accepted grammar of the C03 families is generated through the CLI path (generate_parser_in_directory), which writes parser.c AND node-types.json from one run; the parser is compiled and every error-free tree over the C03 string box (families) / seeds + lexeme strings (zoo) is validated against node-types.json: type listed with the right namedness, every non-extra child under its field (or, if named and field-less, under `children`) with an allowed type directly or through the supertype chain, required => >=1, !multiple => <=1, root flag on the root type. For every symbol id and field id of every language: name/id round trips. Look-ahead: for ALL parse states s and ALL symbols t, next_state(s,t) != 0 => t listed by lookahead_iterator(s); and along every accepted token string the next token's symbol is listed in the state after the previous token (end-of-input after the last). Non-trivial = error-free trees validated.",
+        rule: "E-box: every zoo grammar and every accepted grammar of the C03 families is generated through the CLI path (generate_parser_in_directory), which writes parser.c AND node-types.json from one run; the parser is compiled and every error-free tree over the C03 string box (families) / seeds + lexeme strings (zoo) is validated against node-types.json: type listed with the right namedness, every non-extra child under its field (or, if named and field-less, under `children`) with an allowed type directly or through the supertype chain, required => >=1, !multiple => <=1, root flag on the root type. For every symbol id and field id of every language: name/id round trips. Look-ahead: for ALL parse states s and ALL symbols t, next_state(s,t) != 0 => t listed by lookahead_iterator(s); and along every accepted token string each token's symbol is listed in the state in which it was lexed and accepted. Non-trivial = error-free trees validated.",
         assumptions: vec!["anonymous children without a field are not described by node-types.json and are therefore not checked against `children`".into()],
         exhaustive: true,
         bounds: json!({"tier": tier, "family_bounds": "as C03"}),
@@ -211,14 +211,16 @@ fn check_family(f: &FamGrammar, maxlen: usize, res: &mut ShardResult) {
             let mut nodes = vec![];
             fn collect<'t>(n: tree_sitter::Node<'t>, out: &mut Vec<tree_sitter::Node<'t>>) { if n.child_count() == 0 { if n.end_byte() > n.start_byte() { out.push(n); } } else { for k in 0..n.child_count() { collect(n.child(k as u32).unwrap(), out); } } }
             collect(tree.root_node(), &mut nodes);
+            // Each leaf records the state in which its token was lexed as the look-ahead; the token was then accepted (the
+            // tree is error-free), so that state's look-ahead set must list it. (Node::next_parse_state of the previous
+            // leaf is NOT that state when reductions happen in between, so it is not used.)
             for (k, leaf) in nodes.iter().enumerate() {
-                let s = leaf.next_parse_state();
-                let next_sym = if k + 1 < toks.len() { symbol_for_token(&l.language, &toks[k + 1].kind) } else { 0 };
+                let s = leaf.parse_state();
+                let sym = symbol_for_token(&l.language, &toks[k].kind);
                 if let Some(it) = l.language.lookahead_iterator(s) {
                     let listed: HashSet<u16> = it.collect();
-                    // token symbols may be listed under their internal (unaliased) id: compare by name as a fallback
-                    let ok = listed.contains(&next_sym) || listed.iter().any(|&x| l.language.node_kind_for_id(x) == l.language.node_kind_for_id(next_sym) && next_sym != 0);
-                    if !ok { res.violation("lookahead-set-misses-accepted-token", format!("{} on {:?}: after token {} (state {}) the accepted next token {:?} is not in the look-ahead set", f.id, String::from_utf8_lossy(&text), k, s, l.language.node_kind_for_id(next_sym)), case.clone()); }
+                    let ok = listed.contains(&sym) || listed.iter().any(|&x| l.language.node_kind_for_id(x) == l.language.node_kind_for_id(sym));
+                    if !ok { res.violation("lookahead-set-misses-accepted-token", format!("{} on {:?}: token {} {:?} was accepted in state {} but is not in that state's look-ahead set", f.id, String::from_utf8_lossy(&text), k, l.language.node_kind_for_id(sym), s), case.clone()); }
                 }
             }
         }
